@@ -51,6 +51,48 @@ def _identity_shape(t, leaf):
     return False, k
 
 
+def path_setter_rules(facts, rep, w, D, rule):
+    """the setters of the path type hand the caller's time to the backend as it is and refuse nothing themselves: which
+    values can be stored is the backend's business (a front-end range check makes representable values unsettable)"""
+    from ..pathrules import PathRules
+    pr = PathRules(facts, w, D)
+    n = 0
+    for name in FIELD_OF:
+        b = pr.methods.get(name)
+        if b is None:
+            rep.fail(rule, w.path_ty, "%s present" % name, "public method missing")
+            continue
+        own = []
+        passed = []
+        todo, seen = [b], {b.id}
+        while todo:
+            f = todo.pop()
+            for cb in pr.inter.code_bodies(f):
+                tr = get_tracer(facts, cb)
+                for blk in cb.blocks:
+                    if blk.cleanup:
+                        continue
+                    for st in blk.stmts:
+                        if st.kind == "assign" and st.rv.kind == "agg" and st.rv.agg.get("adt") == "error::VfsErrorKind":
+                            own.append((st.rv.agg.get("variant"), st.line))
+                for s_ in pr.inter.sites(cb):
+                    if s_.trait == w.trait and s_.name == name and len(s_.args) >= 3 and f.id == b.id:
+                        passed.append(norm(tr.operand(s_.args[2])))
+                    hb = pr.inter.local_callee(s_)
+                    if hb is not None and hb.id not in seen and hb.vis != "pub" and not (hb.impl and hb.impl.get("trait")) and \
+                            hb.file == b.file:
+                        seen.add(hb.id)
+                        todo.append(hb)
+        n += 2
+        okp = bool(passed) and all(pr.is_arg(t, 1) for t in passed)
+        rep.ob(rule, b.id, "%s passes the time argument to the backend unchanged" % name, okp,
+               "" if okp else "backend called with %s" % [fmt(t)[:40] for t in passed], b.span)
+        rep.ob(rule, b.id, "%s builds no error of its own" % name, not own, "" if not own else
+               "%s refuses some calls itself (%s): a value the backend could store is not settable through the path type"
+               % (name, ", ".join(sorted({str(v) for v, _ in own}))), own[0][1] if own else b.span)
+    return n
+
+
 def run(facts, rep, tier, ctx):
     D = Discharger(facts, load_records(os.path.join(ctx["V"], "rules", "panic_records.json")))
     ws = World(facts, False)
@@ -124,6 +166,18 @@ def run(facts, rep, tier, ctx):
     c07.delegation(facts, rep, ws, "R19.4a", D)
     c04.overlay_read_delegation(facts, rep, ws, "R19.4o")
     c09.table_u(facts, rep, ws, "R19.4o", only=("set_creation_time", "set_modification_time", "set_access_time"))
+    path_setter_rules(facts, rep, ws, D, "R19.4p")
+    # R19.5 appending keeps the entry (and with it its creation time) until the writer publishes: append_file neither
+    # rewrites the stored entry nor goes through create_file
+    from . import c01 as _c01
+    for w5 in (ws, World(facts, True)):
+        if not w5.present():
+            continue
+        scr5 = Report("a")
+        _c01.table_m(facts, scr5, "M", "Mk", self_ty=w5.memory, trait=w5.trait.rsplit("::", 1)[1], ops_filter=("append_file",))
+        for o in scr5.obligations:
+            if "the stored entry is not modified" in o["key"]:
+                rep.ob(("A/" if w5.asyncw else "") + "R19.5", o["fn"], o["key"].split("|")[2], o["ok"], o["detail"], o["loc"])
     emb = [b for b in facts.bodies if b.impl and b.impl["self_ty"].startswith("impls::embedded::EmbeddedFS") and b.name in FIELD_OF]
     rep.ob("R19.4", "impls::embedded::EmbeddedFS", "setters not overridden (NotSupported default)", not emb, "", "")
     # the async port: AsyncPhysicalFS makes the same single-field filetime calls, the adapters pass through; an in-memory
@@ -137,6 +191,7 @@ def run(facts, rep, tier, ctx):
         k += c07.delegation(facts, A, wa, "R19.4a", D)
         k += c04.overlay_read_delegation(facts, A, wa, "R19.4o")
         k += c09.table_u(facts, A, wa, "R19.4o", only=("set_creation_time", "set_modification_time", "set_access_time"))
+        k += path_setter_rules(facts, A, wa, D, "R19.4p")
         mma = MemoryModel(facts, wa.memory, "AsyncFileSystem")
         over = sorted(op for op in FIELD_OF if op in mma.ops)
         if over:
